@@ -14,6 +14,7 @@ PLANS = {
         "C07": [("valid", "valid", 2, 3, 0, 12000), ("perturbed", "perturb", 1, 1, 1, 3000)],
         "C08": [("null", "null", 0, 400, 0, None)],
         "C11": [("valid", "valid", 2, 3, 0, 12000)],
+        "C09": [("tagged", "tagged", 3, 0, 0, 7000, "plain"), ("tagged-hap", "tagged", 3, 0, 0, 7000, "hap")],
     },
     "thorough": {
         "C01": [("valid", "valid", 2, 8, 0, None), ("perturbed", "perturb", 1, 4, 2, 60000), ("valid3", "valid", 3, 0, 0, 40000)],
@@ -21,11 +22,12 @@ PLANS = {
         "C07": [("valid", "valid", 2, 10, 0, None), ("perturbed", "perturb", 1, 2, 1, 20000)],
         "C08": [("null", "null", 0, 3000, 0, None)],
         "C11": [("valid", "valid", 2, 10, 0, None), ("valid3", "valid", 3, 0, 0, 40000)],
+        "C09": [("tagged", "tagged", 3, 2, 0, 40000, "plain"), ("tagged-hap", "tagged", 3, 2, 0, 40000, "hap"), ("tagged4", "tagged", 4, 0, 0, 40000, "hap")],
     },
 }
 TEXT = {
     "C01": "C01 conservation", "C02": "C02 layout within three texel widths", "C07": "C07 joins carry gaps",
-    "C08": "C08 unedited map is the identity", "C11": "C11 curation statistics",
+    "C08": "C08 unedited map is the identity", "C11": "C11 curation statistics", "C09": "C09 tag routing",
 }
 
 
@@ -34,7 +36,7 @@ def main_for(pid, tier, replay=None):
     rng = random.Random(C.seed())
     if replay:
         tr = json.load(open(replay))["trace"]
-        sc = {k: tr[k] for k in ("tn", "td", "naming", "valid", "input", "map", "cls")}
+        sc = {k: tr[k] for k in ("tn", "td", "naming", "valid", "input", "map", "cls", "haps")}
         sc["tid"] = 1
         traces = [R.run_scenario(sc)]
         jr = R.judge(run, traces, [pid])
@@ -42,10 +44,11 @@ def main_for(pid, tier, replay=None):
     scen = []
     exports = []
     sampled = False
-    for (label, mode, maxedits, nrandom, maxperturb, cap) in PLANS[tier][pid]:
+    for plan in PLANS[tier][pid]:
+        (label, mode, maxedits, nrandom, maxperturb, cap), style = plan[:6], (plan[6] if len(plan) > 6 else "plain")
         for tn, td in R.TEXELS[tier]:
             keep = (lambda o: o["valid"] == 0) if mode == "perturb" else None
-            objs, r = R.export(run, f"pv-{label}-{tn}-{td}", tn, td, mode, maxedits, nrandom, maxperturb, cap=cap, rng=rng, keep=keep)
+            objs, r = R.export(run, f"pv-{label}-{tn}-{td}", tn, td, mode, maxedits, nrandom, maxperturb, cap=cap, rng=rng, keep=keep, style=style)
             if cap and len(objs) == cap:
                 sampled = True
             for o in objs:
